@@ -20,6 +20,7 @@ func c02(c *Ctx) {
 	a := c.processor()
 	p, R := a.p, c.R
 	R.Trust("go/types + go/ssa", "the handler loop is single-goroutine (C01.confine, re-checked here)", "Go channel semantics: a value sent on obsvC is received by Run's select")
+	loopVarRule(c, p, "C02.loopvar", pkgProcessor)
 	R.Assumption("liveness of the loop-back goroutine send is not decided (scheduling)", "behaviour across aggregation lifetimes (entry deleted by cleanup, then re-observed) is not decided")
 
 	conf, _ := a.confined()
